@@ -211,6 +211,13 @@ impl<'s, M: Matcher, S: Sink> MultiLine<'s, M, S> {
 
         let line =
             lines::locate(self.slice, self.config.line_term.as_byte(), mat);
+        if line.is_empty() {
+            // The only way to get an empty line range is a match at the
+            // position immediately following the final line terminator. That
+            // match belongs to no line and is never reported (see
+            // `sink_matched`), so it must not be given any context either.
+            return Ok(true);
+        }
         // We delay sinking the match to make sure we group adjacent matches
         // together in a single sink. Adjacent matches are distinct matches
         // that start and end on the same line, respectively. This guarantees
